@@ -10,7 +10,7 @@ import (
 
 func init() {
 	register("C06", propMeta{
-		Explanation: "E-GUARD + E-PROV + E-OWN. O-1 matcher siblings agree: in IsSupersetOf and IsMember the receiver's suffix is always the needle (second argument of strings.HasSuffix, or one side of == in the exact branch); in the exact branch IsSupersetOf can yield true only behind 'the other rule is exact too'; NewNameMatcher strips one trailing $ and one leading ^ and takes exact from the leading ^. With these shapes 'superset implies membership' follows from transitivity of 'is a suffix of' (paper argument); the checker decides the shapes. O-2 broker rejects before registering: in ProxyPolls RequestOffer (the only way a poll becomes matchable; single caller) is reachable only through the true edge of CheckProxyRelayPattern applied to the decoded pattern and support flag; on the false edge the response is the explicit rejection; CheckProxyRelayPattern returns nothing but proxyPattern.IsSupersetOf(brokerPattern) with the receiver built from the proxy's (or, exactly on the legacy edge, the presumed) pattern and the argument from the allowed pattern. O-3 proxy validates before it can dial: the only WebSocket dial of proxy/lib is in datachannelHandler, reached only through the adaptor built in runSession with the polled relay URL; that construction is reachable only through (relayURL == \"\" or IsMember(parsed host)) and only through (relayURL == \"\" or AllowNonTLSRelay or scheme == wss), with parsed = url.Parse(relayURL) behind its err == nil edge and the matcher built from the proxy's own pattern; the URL dialled derives from that same string; Start refuses patterns without a trailing $.",
+		Explanation: "E-GUARD + E-PROV + E-OWN. O-1 matcher siblings agree: in IsSupersetOf and IsMember the receiver's suffix is always the needle (second argument of strings.HasSuffix, or one side of == in the exact branch); in the exact branch IsSupersetOf can yield true only behind 'the other rule is exact too'; NewNameMatcher strips one trailing $ and one leading ^ and takes exact from the leading ^. With these shapes 'superset implies membership' follows from transitivity of 'is a suffix of' (paper argument); the checker decides the shapes. O-2 broker rejects before registering: in ProxyPolls RequestOffer (the only way a poll becomes matchable; single caller) is reachable only through the true edge of CheckProxyRelayPattern applied to the decoded pattern and support flag; on the false edge the response is the explicit rejection; CheckProxyRelayPattern returns nothing but proxyPattern.IsSupersetOf(brokerPattern) with the receiver built from the proxy's (or, exactly on the legacy edge, the presumed) pattern and the argument from the allowed pattern. O-3 proxy validates before it can dial: the only WebSocket dial of proxy/lib is in datachannelHandler, reached only through the adaptor built in runSession with the polled relay URL; that construction is reachable only through (relayURL == \"\" or IsMember(parsed host)) and only through (relayURL == \"\" or AllowNonTLSRelay or scheme == wss), with parsed = url.Parse(relayURL) behind its err == nil edge and the matcher built from the proxy's own pattern; the URL dialled derives from that same string; Start refuses patterns without a trailing $. Added after the second seeding round: O-2b the stored pattern fields derive, through the installing function's parameters and main's arguments, from the flag variables registered under -allowed-relay-pattern and -default-relay-pattern respectively; the relay-URL predicates may live in a boolean helper of runSession (summarised by its true-returning paths).",
 		NotDecided:  "the string law over all patterns and hostnames (value-level), DNS/redirect behaviour of the WebSocket dialer, the operator's choice of patterns.",
 		Assumptions: []string{"strings.HasSuffix/TrimSuffix/TrimPrefix/HasPrefix behave as documented"},
 	}, runC06)
